@@ -34,7 +34,8 @@ MODULE = "Sqfs.Props.C11"
 REQUIRED = ["Sqfs.C11.insertSorted_perm", "Sqfs.C11.insertSorted_sorted", "Sqfs.C11.compare_names_total_order",
             "Sqfs.C11.read_names_sorted", "Sqfs.C11.read_names_perm", "Sqfs.C11.qsort_any_conforming",
             "Sqfs.C11.scan_perm_invariant", "Sqfs.C11.scan_perm_invariant_glob", "Sqfs.C11.pack_order_invariant", "Sqfs.C11.sort_files_perm_sorted_stable",
-            "Sqfs.C11.numbering_deterministic", "Sqfs.C11.pack_dir_links_order_free", "Sqfs.C11.scan_tree_sorted", "Sqfs.C11.glob_tree_sorted"]
+            "Sqfs.C11.numbering_deterministic", "Sqfs.C11.pack_dir_links_order_free", "Sqfs.C11.scan_tree_sorted", "Sqfs.C11.glob_tree_sorted",
+            "Sqfs.C11.strcmpC_neg_iff_lt", "Sqfs.C11.compare_names_is_lex", "Sqfs.C11.read_names_sorted_lex"]
 # not obligations of the property: the witness for the iterator without its qsort call (a revert of /repo 7ff9210), and the
 # frozen record of the theorems about the code before that commit; both must keep building with allowed axioms only
 RECORD_MODULES = ["Sqfs.Witness.C11", "Sqfs.Proofs.C11Pinned.Theorems"]
